@@ -271,7 +271,11 @@ func judge(class string, key []byte, o *fw.Obs) {
 		pan   interface{}
 	}
 	resCh := make(chan result, 1)
-	w1, w2 := pow.New(c.workers), powv2.New(c.workers)
+	var w1 *pow.Worker
+	var w2 *powv2.Worker
+	if !o.Try("New", func() { w1, w2 = pow.New(c.workers), powv2.New(c.workers) }) {
+		return
+	}
 	// optional second caller on the same Worker (easy target, looped until the first call returns)
 	var stopSecond int32
 	secondDone := make(chan string, 1)
